@@ -184,6 +184,25 @@ func c14Check(c c14Case) *evid.Fail {
 			if skip[i] || !st.connected {
 				continue
 			}
+			if st.registered {
+				// the fan-out to the clients runs on the proxy's cluster goroutine, unordered with respect to the witness
+				// and to this client's own requests: wait for this client's copy of the marker (it is owed one)
+				for {
+					n := 0
+					for _, fr := range st.cl.Frames()[st.seen:] {
+						if primitive.OpCode(fr.F.Op) == primitive.OpCodeEvent {
+							n++
+						}
+					}
+					if n >= len(want) || st.cl.PeerClosed() || time.Now().After(deadline) {
+						break
+					}
+					time.Sleep(300 * time.Microsecond)
+				}
+				if stalled(posWait) {
+					return evid.Failf("harness-stall", "stalled")
+				}
+			}
 			if _, err := st.cl.Fence(st.v, posWait); err != nil {
 				return evid.Failf("fence-failed", "%s: client %d: %v", where, i, err)
 			}
@@ -311,6 +330,28 @@ func c14Check(c c14Case) *evid.Fail {
 				f.Sig = "stuck:" + f.Sig
 				return f
 			}
+		}
+	}
+	// end of the history: nothing may trickle in late (a duplicate, or an event for a client that never registered)
+	for i, st := range cs {
+		if !st.connected || st.cl.PeerClosed() {
+			continue
+		}
+		if _, err := st.cl.Fence(st.v, posWait); err != nil {
+			continue
+		}
+		st.cl.Quiesce(4*time.Millisecond, 60*time.Millisecond)
+		got, f := newEvents(i, st)
+		if f != nil {
+			f.Msg = "end of history: " + f.Msg
+			return f
+		}
+		if len(got) > 0 {
+			sig := "event-duplicated"
+			if !st.registered {
+				sig = "event-to-unregistered"
+			}
+			return evid.Failf(sig, "end of history: client %d (registered=%v) received %d more schema events than were owed: %v", i, st.registered, len(got), got[0])
 		}
 	}
 	return nil
